@@ -883,7 +883,16 @@ def m_int_from_bytes(I, args, kwargs):
     total = z3.Sum([term(x) * z3.IntVal(256 ** (n - 1 - i)) for i, x in enumerate(items)]) if n > 1 else term(items[0])
     if signed:
         total = z3.If(term(items[0]) >= 128, total - z3.IntVal(256**n), total)
-    return lift_int(total)
+    r = lift_int(total)
+    if isinstance(r, SInt):
+        register_from_bytes(I.ctx, r.t, [term(x) for x in items], bool(signed))
+    return r
+
+
+def register_from_bytes(ctx, total, items, signed):
+    """remember that `total` is int.from_bytes(items, 'big', signed): lets to_bytes of the same term give the bytes back
+    (library lemma: int.to_bytes(int.from_bytes(b, 'big', signed=s), len(b), 'big', signed=s) == b)"""
+    ctx.ghost.setdefault("from_bytes", []).append((total, list(items), signed))
 
 
 def int_to_bytes(I, v, args, kwargs):
@@ -902,7 +911,13 @@ def int_to_bytes(I, v, args, kwargs):
         if not signed and I.ctx.decide(t < 0, "to_bytes-neg"):
             raise _I().PyExc(OverflowError("can't convert negative int to unsigned"))
         raise _I().PyExc(OverflowError("int too big to convert"))
-    items = [z3.simplify((t / z3.IntVal(256 ** (size - 1 - i))) % 256) for i in range(size)]
+    items = None
+    for total, its, sg in I.ctx.ghost.get("from_bytes", []):
+        if len(its) == size and sg == bool(signed) and total.eq(t):
+            items = list(its)
+            break
+    if items is None:
+        items = [z3.simplify((t / z3.IntVal(256 ** (size - 1 - i))) % 256) for i in range(size)]
     if byteorder == "little":
         items = items[::-1]
     return SBytes(items)
